@@ -29,6 +29,9 @@ MISSED_AT_FIRST = {
  "C09-4": "the real-thread program never called reproc_poll; it now polls (single-source form, per-thread interests) and drains; the threads family was added to C09 and its divergences are attributed to C09 when they concern poll",
  "C14-4": "needs an interrupted reap (Interrupt added) AND a look at the handle after a call whose contract is 'nothing changes': the exploration keeps one history per model state and continued from another one; every script now ends with a probe (zero-timeout poll on every started handle), and a descriptor-count difference no longer ends a script",
  "C15-3": "restart family added to C15 (see C08-3)",
+ "C10-3": "what a failed start leaves in the handle was looked at by C04/C08/C15 only; the restart family (failed start, then a start with other redirects, then read/poll/destroy) now also runs under C10, with divergences on stream calls attributed to it",
+ "C12-4": "the signal mask is per thread, the interleaving family had one mask for the process; each coroutine now has its own mask (swapped with the context) which must be unchanged when its call has returned; the real-thread program checks the same; both families added to C12",
+ "C13-4": "needs two threads with different shorthands; the real-thread program now gives its threads different valid options and lets some of them make requests that must be rejected; a data race or a wrong verdict in option parsing is attributed to C13, the threads family added to C13; a hang of that program is reported with what it printed before",
  "C16-4": "a sink that re-enters the library was not modelled; MC_Nest added (a sink that drains another child before it looks at its own chunk)",
 }
 
